@@ -67,6 +67,7 @@ Section AddPass.
   Hypothesis Hroot : is_root st v.
   Hypothesis Hd : vd st v <> 0.
   Hypothesis Hnot : ~ In v (sundeclared (sc_of st s)).
+  Hypothesis Hhome : (home v <= s)%nat.
 
   Let sc := sc_of st s.
   Let st' := sset st s (set_undeclared sc (sundeclared sc ++ [v])).
@@ -110,7 +111,7 @@ Section AddPass.
     - intros q w Hq. destruct (ap_fields q) as (_ & _ & _ & _ & _ & ->).
       destruct (Nat.eqb_spec q s) as [->|]; [|apply Iund; exact Hq].
       intros H. apply in_app_last in H. destruct H as [H| ->]; [apply Iund; assumption|].
-      split; [exact Hroot|]. intros E. contradiction.
+      split; [exact Hroot|]. split; [intros E; contradiction|exact Hhome].
     - intros q Hq. destruct (ap_fields q) as (_ & _ & _ & _ & _ & ->).
       destruct (Nat.eqb_spec q s) as [->|]; [|apply Iunodup; exact Hq].
       apply nodup_app_last; [apply Iunodup; exact Hq|exact Hnot].
@@ -232,7 +233,10 @@ Proof.
     + (* appended *)
       assert (Hnotin : ~ In v (sundeclared (sc_of st s))).
       { intros H. apply existsb_nat_in in H. congruence. }
-      destruct (add_pass_all st log stk home s v I U Hs Hv Hr Hd Hnotin)
+      assert (Hts : (home v <= s)%nat).
+      { rewrite Hh. assert (t < s)%nat; [|lia]. apply (stack_ok_head_lt st s (spre ++ t :: spost) t Hstack).
+        apply in_app_iff. right. left. reflexivity. }
+      destruct (add_pass_all st log stk home s v I U Hs Hv Hr Hd Hnotin Hts)
         as (I1 & U1 & En1 & Hfs & Hfo & Hl1 & Hvg1 & Hnv1).
       set (st1 := sset st s (set_undeclared (sc_of st s) (sundeclared (sc_of st s) ++ [v]))) in *.
       cbn [rbind]. assert (Hsn1 : (s < nscopes st1)%nat) by (rewrite En1; exact Hsn).
